@@ -21,7 +21,7 @@ func TestMain(m *testing.M) { vstat.Main(m) }
 
 type CustomInj struct {
 	Name    string `json:"name"`
-	Outcome string `json:"outcome"` // "value", "empty", "error"
+	Outcome string `json:"outcome"` // "value", "empty", "error", "panic"
 }
 
 type Spoof struct {
@@ -37,6 +37,8 @@ type Req struct {
 	// Fillers: this many header fields with distinct, never-seen-before names precede the spoofed ones
 	// (a connection's worth of unusual header names exhausts per-connection header-name caches)
 	Fillers int `json:"fillers,omitempty"`
+	// TrailerSpoofs: the request has a body and a trailer section (announced in Trailer) with these fields
+	TrailerSpoofs []Spoof `json:"trailer_spoofs,omitempty"`
 }
 
 type Script struct {
@@ -47,6 +49,10 @@ type Script struct {
 	// Prior: another client (a different hello, another address) has connected, been fingerprinted and served
 	// before the connection under test arrives
 	Prior bool `json:"prior,omitempty"`
+	// SplitAt: where the hello message is cut (message offset); CustomFirst: the custom injectors precede the
+	// default three
+	SplitAt     int  `json:"split_at,omitempty"`
+	CustomFirst bool `json:"custom_first,omitempty"`
 }
 
 type inj struct {
@@ -60,6 +66,10 @@ func (i inj) GetHeaderValue(*http.Request) (string, error) {
 		return "proxy-computed-" + strings.ToLower(i.Name), nil
 	case "empty":
 		return "", nil
+	case "panic":
+		// a user-supplied injector with a bug: the request dies (net/http recovers the handler's panic);
+		// whatever is forwarded nevertheless is held to the property
+		panic("verif: injector " + i.Name + " panics")
 	}
 	return "", errors.New("injected failure")
 }
@@ -91,12 +101,18 @@ func gen(t *rapid.T) Script {
 	var s Script
 	s.Proto = rapid.SampledFrom([]string{"h2", "http/1.1", "none"}).Draw(t, "proto")
 	s.SplitHello = rapid.IntRange(0, 5).Draw(t, "split") == 0
+	if s.SplitHello {
+		// anywhere in the first 150 octets of the message; half of the cuts fall around the end of the cipher
+		// suite list, where the retained first record stops inside a vector
+		s.SplitAt = rapid.OneOf(rapid.IntRange(1, 150), rapid.IntRange(96, 112)).Draw(t, "splitAt")
+	}
 	s.Prior = rapid.Bool().Draw(t, "prior")
 	nc := rapid.IntRange(0, 2).Draw(t, "ncustom")
 	pool := []string{"X-My-Fingerprint", "x-custom-fp", "X-TLS-Hash", "Client-Fingerprint"}
 	for i := 0; i < nc; i++ {
-		s.Custom = append(s.Custom, CustomInj{Name: pool[(i*2+rapid.IntRange(0, 1).Draw(t, "cn"))%len(pool)], Outcome: rapid.SampledFrom([]string{"value", "empty", "error"}).Draw(t, "outcome")})
+		s.Custom = append(s.Custom, CustomInj{Name: pool[(i*2+rapid.IntRange(0, 1).Draw(t, "cn"))%len(pool)], Outcome: rapid.SampledFrom([]string{"value", "empty", "error", "value", "empty", "error", "panic"}).Draw(t, "outcome")})
 	}
+	s.CustomFirst = nc > 0 && rapid.Bool().Draw(t, "customFirst")
 	if nc == 2 && strings.EqualFold(s.Custom[0].Name, s.Custom[1].Name) {
 		s.Custom = s.Custom[:1]
 	}
@@ -127,6 +143,14 @@ func gen(t *rapid.T) Script {
 				}
 				r.Spoofs = append(r.Spoofs, Spoof{Name: caseVariant(t, n), Value: v})
 			}
+		}
+		if rapid.IntRange(0, 4).Draw(t, "trailerSpoof") == 0 {
+			nt := rapid.IntRange(1, 2).Draw(t, "ntrail")
+			for j := 0; j < nt; j++ {
+				k++
+				r.TrailerSpoofs = append(r.TrailerSpoofs, Spoof{Name: caseVariant(t, rapid.SampledFrom(names).Draw(t, "tn")), Value: fmt.Sprintf("spoof-%d", k)})
+			}
+			r.Method = "POST"
 		}
 		if s.Proto == "h2" && rapid.Bool().Draw(t, "cont") {
 			r.Cuts = rapid.SliceOfN(rapid.IntRange(1, 30), 1, 3).Draw(t, "cuts")
@@ -165,8 +189,14 @@ func exec(t *testing.T, s Script) *vstat.Violation {
 	var o obs
 	msg := rig.Bubble(t, func() {
 		injs := rig.DefaultInjectors(^uint(0))
+		var cust []reverseproxy.HeaderInjector
 		for _, c := range s.Custom {
-			injs = append(injs, reverseproxy.HeaderInjector(inj{c}))
+			cust = append(cust, reverseproxy.HeaderInjector(inj{c}))
+		}
+		if s.CustomFirst {
+			injs = append(cust, injs...)
+		} else {
+			injs = append(injs, cust...)
 		}
 		p := rig.StartProxy(rig.ProxyOpts{Injectors: injs, IdleTimeout: 60e9, TLSHandshakeTimeout: 10e9})
 		defer p.Stop()
@@ -191,7 +221,11 @@ func exec(t *testing.T, s Script) *vstat.Violation {
 			}
 		}
 		if s.SplitHello {
-			cc, err = rig.ConnectSplit(p, alpn, 40)
+			cut := s.SplitAt
+			if cut == 0 {
+				cut = 40
+			}
+			cc, err = rig.ConnectSplit(p, alpn, cut)
 		} else {
 			cc, err = rig.Connect(p, alpn, nil)
 		}
@@ -210,7 +244,18 @@ func exec(t *testing.T, s Script) *vstat.Violation {
 			for _, sp := range r.Spoofs {
 				rs.Headers = append(rs.Headers, [2]string{sp.Name, sp.Value})
 			}
+			if len(r.TrailerSpoofs) > 0 {
+				rs.Body, rs.Chunked = []byte("body-of-"+r.Path), true
+				for _, sp := range r.TrailerSpoofs {
+					rs.Trailers = append(rs.Trailers, [2]string{sp.Name, sp.Value})
+				}
+			}
 			ex := cc.Do(rs)
+			if ex.Err != "" && cc.H2 == nil {
+				// HTTP/1.1: the server closes the connection after a handler panic
+				o.errs = append(o.errs, fmt.Sprintf("%s: err %s", r.Path, ex.Err))
+				break
+			}
 			if ex.Err != "" || ex.Status != 200 {
 				o.errs = append(o.errs, fmt.Sprintf("%s: status %d err %s", r.Path, ex.Status, ex.Err))
 			}
@@ -223,15 +268,27 @@ func exec(t *testing.T, s Script) *vstat.Violation {
 		col.Discard()
 		return nil
 	}
-	if len(o.reqs) != len(s.Reqs) {
+	mayAbort := s.SplitHello // (a first record that ends inside a vector makes the JA3 code panic: the request dies)
+	for _, c := range s.Custom {
+		mayAbort = mayAbort || c.Outcome == "panic"
+	}
+	if len(o.reqs) != len(s.Reqs) && !mayAbort {
 		col.Class("discard:not-all-forwarded", 1)
 		col.Discard()
 		return nil
 	}
+	byPath := map[string]Req{}
+	for _, r := range s.Reqs {
+		byPath[r.Path] = r
+	}
 	// expected proxy values
 	want := map[string]string{} // canonical name -> expected value ("" = must be absent, "?" = any one proxy value)
 	ph, perr := hello.Parse(o.record)
-	if s.SplitHello || perr != nil {
+	if s.SplitHello && s.SplitAt != 0 && s.SplitAt != 40 {
+		// what the fingerprint code makes of a first record that stops at an arbitrary offset is C01/C02's
+		// subject (known finding hello-spans-2-records); here: at most one value, and never the client's
+		want["X-Ja3-Fingerprint"], want["X-Ja4-Fingerprint"] = "*", "*"
+	} else if s.SplitHello || perr != nil {
 		want["X-Ja3-Fingerprint"], want["X-Ja4-Fingerprint"] = "", ""
 	} else {
 		want["X-Ja3-Fingerprint"], want["X-Ja4-Fingerprint"] = hello.JA3(ph), hello.JA4(ph)
@@ -250,8 +307,18 @@ func exec(t *testing.T, s Script) *vstat.Violation {
 		}
 	}
 	nontrivial := false
-	for i, r := range s.Reqs {
-		got := o.reqs[i]
+	for _, got := range o.reqs {
+		r, known := byPath[got.RequestURI]
+		if !known {
+			return vstat.Violf("backend-request-nobody-sent", "backend received %s %s", got.Method, got.RequestURI)
+		}
+		for k, tv := range got.Trailer {
+			for _, v := range tv {
+				if isConfigured(k, s) && strings.HasPrefix(v, "spoof-") {
+					return vstat.Violf("trailer-section|client-value-reaches-backend", "proto %s request %s: the backend received %s: %q in the request's trailer section (client sent trailer fields %v)", o.proto, r.Path, k, tv, r.TrailerSpoofs)
+				}
+			}
+		}
 		spoofed := map[string][]string{}
 		for _, sp := range r.Spoofs {
 			k := http.CanonicalHeaderKey(sp.Name)
@@ -274,6 +341,7 @@ func exec(t *testing.T, s Script) *vstat.Violation {
 				return vstat.Violf(class+"|several-values", "proto %s request %s: backend received %d values for %s: %q", o.proto, r.Path, len(vals), k, vals)
 			}
 			switch w {
+			case "*":
 			case "":
 				if len(vals) != 0 {
 					return vstat.Violf(class+"|unexpected-value", "proto %s request %s: %s should be absent, got %q", o.proto, r.Path, k, vals)
@@ -302,11 +370,24 @@ func exec(t *testing.T, s Script) *vstat.Violation {
 	if s.SplitHello {
 		cl = append(cl, "unparsable-hello")
 		if s.Prior {
-			cl = append(cl, "unparsable-hello-after-another-client-was-fingerprinted")
+			cl = append(cl, "unparsable-hello-after-another-client-was-fingerprinted", "client-value-in-the-trailer-section:h2", "client-value-in-the-trailer-section:http/1.1", "injector-panics-ahead-of-other-injectors")
 		}
 	}
-	for _, c := range s.Custom {
+	for i, c := range s.Custom {
 		cl = append(cl, "custom-outcome:"+c.Outcome)
+		if c.Outcome == "panic" && (s.CustomFirst || i < len(s.Custom)-1) {
+			cl = append(cl, "injector-panics-ahead-of-other-injectors")
+		}
+	}
+	if len(o.reqs) < len(s.Reqs) {
+		cl = append(cl, "request-died-in-the-proxy")
+	}
+	for _, r := range s.Reqs {
+		if len(r.TrailerSpoofs) > 0 {
+			cl = append(cl, "client-value-in-the-trailer-section:"+s.Proto)
+			nontrivial = true
+			break
+		}
 	}
 	if nontrivial {
 		cl = append(cl, "client-value-where-injector-yields-nothing")
